@@ -214,8 +214,12 @@ Inductive op :=
 | OIter (batch : nat) (d : N) (K : nat)   (* iter_with_batch_size / iter_stream_with_batch_size (batch.max(1));
                                          clock += d after each of the first K calls of next, K*d in total *)
 | OIterSnap                         (* iter_snapshot / iter_snapshot_async *)
-| OSnap (gap : N) (rtti : option N) (* to_snapshot; clock += gap; build_from_snapshot (entries reordered by key) with
-                                       time_to_idle rtti; continue on the restored cache *)
+| OSnap (gap : N) (rttl rtti : option N)
+                                    (* to_snapshot; clock += gap; build_from_snapshot (entries reordered by key) by a
+                                       builder with time_to_live rttl and time_to_idle rtti; continue on the restored
+                                       cache.  The builder's time_to_live applies to LATER inserts only: a restored
+                                       entry's deadline is now + its persisted ttl_remaining, and an entry persisted
+                                       without a TTL gets none (builder/mod.rs: p_entry.ttl_remaining.map(..)) *)
 | OMaint                            (* run_maintenance *)
 | OCost.                            (* metrics().current_cost *)
 
@@ -242,9 +246,9 @@ Definition step (c : cache) (o : op) : cache * res :=
   | OIterSnap =>
       let '(out, ms) := snap_iterate (c_tti c) (c_now c) (maps c) in
       (mkC (set_maps (c_shs c) ms) (c_cost c) (c_cap c) (c_ttl c) (c_tti c) (c_now c), RItems out true)
-  | OSnap gap rtti =>
+  | OSnap gap rttl rtti =>
       let s := snapshot c in
-      (restore (reorder s) (c_now c + gap) None rtti, RSnap (s_entries s))
+      (restore (reorder s) (c_now c + gap) rttl rtti, RSnap (s_entries s))
   | OMaint => (run_maintenance c, RUnit)
   | OCost => (c, RCost (c_cost c))
   end.
